@@ -35,15 +35,35 @@ fn index_to_position(source: &[char], index: usize) -> Position {
 }
 
 fn position_to_index(source: &[char], position: Position) -> usize {
-    let mut newline_indices: Vec<_> = source
+    // The index after each newline, i.e. where lines 1, 2, .. start.
+    let line_starts: Vec<_> = source
         .iter()
         .enumerate()
         .filter_map(|(idx, c)| if *c == '\n' { Some(idx + 1) } else { None })
         .take(position.line as usize + 1)
         .collect();
 
-    let line_end_idx = newline_indices.pop().unwrap_or(source.len());
-    let line_start_idx = newline_indices.pop().unwrap_or(0);
+    // The last line of a document without a trailing newline has no newline of its own: it
+    // ends where the document ends. A line past the end of the document is empty.
+    let line_bounds = |line: usize| {
+        let start = if line == 0 {
+            0
+        } else {
+            line_starts.get(line - 1).copied().unwrap_or(source.len())
+        };
+        let end = line_starts.get(line).copied().unwrap_or(source.len());
+
+        (start, end)
+    };
+
+    let line = position.line as usize;
+    let (mut line_start_idx, mut line_end_idx) = line_bounds(line);
+
+    // Some clients address the end of the last line as a column of the empty line that follows
+    // it (#250): such a position is resolved on the line before.
+    if line > 0 && line_start_idx == line_end_idx && position.character > 0 {
+        (line_start_idx, line_end_idx) = line_bounds(line - 1);
+    }
 
     let mut traversed_cols = 0;
 
